@@ -117,3 +117,17 @@ CHECKS["C16"] = {
     "assumptions": ["placement is what the create-dataset proposal carries (bytes captured at raft.Group.Propose)"],
     "min": {"any": {"creates_checked": 10000, "independence_tests": 300}},
 }
+
+CHECKS["C13"] = {
+    "pkg": "./c13", "run": "^TestC13$", "level": "exploration",
+    "technique": "Go race detector (deciding) + porcupine per-id linearizability + search-item liveness intervals + quiescent dump invariants + structural deadlock watchdog, over seeded stress runs with scheduling noise at index yield points",
+    "level_text": "Stress monitor of one index.Hnsw under -race: single-writer/many-readers and many-writers workloads (4..24 ids, up to 24 goroutines, GOMAXPROCS 2 and 16, seeded Gosched/sleep at the index's yield points). Every run is judged by the race detector, by porcupine on the recorded Insert/Remove/Get history partitioned by id, by liveness intervals of every item each search returned (with bit-exact score), by Len/contents/structural invariants and the C01 search oracle at quiescence, and by a structural deadlock criterion.",
+    "level_note": "Interleavings are whatever the scheduler and the injected noise produced (not replayable); a clean race-detector run means no race was observed in these runs. checkptr is disabled in race builds because the SIMD wrappers pass the length as a fake pointer.",
+    "shards": {"quick": 8, "thorough": 16},
+    "race": {"quick": True, "thorough": True},
+    "race_deciding": True,
+    "timeout": {"quick": 900, "thorough": 3400},
+    "rule": "run c = generated index config + workload (single writer with 2..11 readers, or 2..15 writers with 0..7 readers) of ~1500 (quick) / 4000 (thorough) write operations on 4..24 ids plus concurrent Get/Len/Search; non-trivial = history of more than 100 operations; distinct = digest of the run description",
+    "assumptions": ["timestamps come from one monotonic clock at the caller boundary", "porcupine is trusted as the linearizability checker (60 s timeout => inconclusive)"],
+    "min": {"any": {"history_ops": 10000, "search_results_checked": 1000, "linearizable_histories": 4}},
+}
